@@ -77,6 +77,33 @@ public:
         return vector_low[irq] | ((u32)vector_high[irq] << 16);
     }
 
+    // MMIO accessors for the vector registers. Trigger() reads them from the host thread under the
+    // mutex, so the DSP side must take it as well.
+    void SetVectorLow(u32 irq, u16 value) {
+        std::lock_guard lock(mutex);
+        vector_low[irq] = value;
+    }
+    u16 GetVectorLow(u32 irq) const {
+        std::lock_guard lock(mutex);
+        return vector_low[irq];
+    }
+    void SetVectorHigh(u32 irq, u16 value) {
+        std::lock_guard lock(mutex);
+        vector_high[irq] = value;
+    }
+    u16 GetVectorHigh(u32 irq) const {
+        std::lock_guard lock(mutex);
+        return vector_high[irq];
+    }
+    void SetVectorContextSwitch(u32 irq, u16 value) {
+        std::lock_guard lock(mutex);
+        vector_context_switch[irq] = value;
+    }
+    u16 GetVectorContextSwitch(u32 irq) const {
+        std::lock_guard lock(mutex);
+        return vector_context_switch[irq];
+    }
+
     void SetInterruptHandler(std::function<void(u32)> interrupt,
                              std::function<void(u32, bool)> vectored_interrupt) {
         on_interrupt = std::move(interrupt);
